@@ -100,6 +100,15 @@ func ruleLockAccessFor(c *Ctx, writes bool, only map[string]bool) {
 		return
 	}
 	lk := a.lk
+	// an arm of the lock table that cannot be interpreted (a lock operation nested in a conditional, …) is reported by
+	// R7.ct-join / R18.script-locks; the handlers behind it would all be analysed as unlocked and every one of their
+	// accesses reported — one undecided obligation says so instead
+	for _, cl := range a.ct.LT.Clauses {
+		if lc := a.ct.LTClass[cl]; lc != nil && lc.Problem != "" {
+			c.und("lock-table", cl.Clause.Pos(), "the lock arm of %v cannot be interpreted (%s): the lock state of the handlers behind it is unknown, so their accesses are not judged one by one", cl.Strings, lc.Problem)
+			return
+		}
+	}
 	c.stat("units_analysed", len(lk.units))
 	c.stat("automatic_roots", len(lk.autoRoots))
 	for loc := range c.muData().unknown {
